@@ -99,6 +99,9 @@ if __name__ == '__main__':
         import concurrent.futures, threading
         names = sorted(n for n in os.listdir(os.path.join(ROOT, 'seeded')) if os.path.isdir(os.path.join(ROOT, 'seeded', n)))
         nw = int(sys.argv[2]) if len(sys.argv) > 2 else 4
+        only = sys.argv[3:]  # optional: only these changes (RESULTS.json is then left alone)
+        if only:
+            names = [n for n in names if n in only]
         roots = []
         for k in range(nw):
             wt = '/tmp/sv_root_%d' % k
@@ -125,7 +128,8 @@ if __name__ == '__main__':
         for wt, vd in roots:
             sh('git -C /repo worktree remove --force %s' % wt)
             shutil.rmtree(vd, ignore_errors=True)
-        json.dump({'rules_reporting_each_seeded_change': RESULT}, open(os.path.join(ROOT, 'seeded', 'RESULTS.json'), 'w'), indent=1, sort_keys=True)
+        if not only:
+            json.dump({'rules_reporting_each_seeded_change': RESULT}, open(os.path.join(ROOT, 'seeded', 'RESULTS.json'), 'w'), indent=1, sort_keys=True)
         missed = [n for n in names if not RESULT.get(n)]
         print('seeded changes: %d, reported: %d, not reported: %s' % (len(names), len(names) - len(missed), missed))
         sys.exit(0)
